@@ -18,7 +18,11 @@ def main():
             print(r.stdout[-4000:])
             return 1
     buildmod.build("plain", None, ["c06_parallel"], True)   # complex-matrix-element flavour (part of the C06 quick check)
-    buildmod.build("tsan", None, ["c06_omp_tsan"])   # ThreadSanitizer probe of the OpenMP region (single inline rank, real threads)
+    tb = buildmod.build("tsan", None, ["c06_omp_tsan", "omp_threads_selftest"])   # ThreadSanitizer probe of the OpenMP region (single inline rank, real threads)
+    r = subprocess.run([tb["omp_threads_selftest"]], stdout=subprocess.PIPE, stderr=subprocess.STDOUT, text=True)
+    print("[setup] tsan: %s" % (r.stdout.strip().splitlines()[-1] if r.stdout.strip() else "(no output)"))
+    if r.returncode != 0:
+        print(r.stdout[-4000:]); return 1
     r = subprocess.run([sys.executable, os.path.join(buildmod.VERIF, "tools", "selftest.py"), "--quick"])
     if r.returncode != 0:
         return 1
